@@ -244,9 +244,7 @@ func (c *PublicChainAPI) GetTermReward(height uint32) (*TermRewardInfo, error) {
 
 // GetCandidateTop30 get top 30 candidate node
 func (c *PublicChainAPI) GetCandidateTop30() []*CandidateInfo {
-	latestStableBlock := c.chain.StableBlock()
-	stableBlockHash := latestStableBlock.Hash()
-	storeInfos := c.chain.GetCandidatesTop(stableBlockHash)
+	storeInfos := c.chain.GetStableCandidatesTop()
 	candidateList := make([]*CandidateInfo, 0, 30)
 	for _, info := range storeInfos {
 		candidateInfo := &CandidateInfo{
